@@ -521,6 +521,14 @@ impl Prop for C11 {
 		} else {
 			gen_target(rng)
 		};
+		// The allocation cap exists on the reader path only. On valid encodings it is sometimes set just above the
+		// largest single token, so that nothing legitimate hits it and any use of it for something that is not a field
+		// (a whole skipped block, a run of fields) shows as a slice / reader disagreement.
+		let mut limits = Limits::sim_default();
+		if mode == Mode::Datum && (gen_kind == "ref" || gen_kind.starts_with("unusual")) && rng.chance(1, 3) {
+			let largest = tokens.iter().map(|t| t.len).max().unwrap_or(0);
+			limits.max_alloc_size = (4 * largest).max(64);
+		}
 		Scn {
 			mode,
 			schema,
@@ -529,7 +537,7 @@ impl Prop for C11 {
 			tokens,
 			target,
 			plans: Plans::Enumerate { seed: rng.next_u64() },
-			limits: Limits::sim_default(),
+			limits,
 		}
 	}
 
